@@ -364,6 +364,13 @@ package ir
 //@   props C08 C13 C14
 //@   assigns nothing
 //@   ensures result == i.LocalID
+//@ # (re)naming forgets the number: an ID assigned by an earlier print must not survive SetName (C14: the
+//@ # next print numbers the value by its position, as if it had never been printed)
+//@ func (*LocalIdent).SetName
+//@   props C14 C08
+//@   requires i != nil
+//@   assigns i.LocalName, i.LocalID
+//@   ensures i.LocalName == name && i.LocalID == 0
 //@ func (*LocalIdent).SetID
 //@   props C08 C13 C14
 //@   requires i != nil
@@ -377,6 +384,11 @@ package ir
 //@   props C08 C13 C14
 //@   assigns nothing
 //@   ensures result == i.GlobalID
+//@ func (*GlobalIdent).SetName
+//@   props C14 C08
+//@   requires i != nil
+//@   assigns i.GlobalName, i.GlobalID
+//@   ensures i.GlobalName == name && i.GlobalID == 0
 //@ func (*GlobalIdent).SetID
 //@   props C08 C13 C14
 //@   requires i != nil
@@ -1607,6 +1619,10 @@ package ir
 
 //@ # ---------------------------------------------------------------- C15 ---
 //@ # Operands() returns the addresses of the operand fields themselves (live slots), each exactly once.
+//@ # bcnt(bs, j): number of inputs of the operand bundles bs[0..j)
+//@ rec spec bcnt(bs []*OperandBundle, j int) int reads {elems(*OperandBundle), OperandBundle.Inputs} = ite(j <= 0, 0, bcnt(bs, j - 1) + ite(len(bs[j - 1].Inputs) >= 0, len(bs[j - 1].Inputs), 0))
+//@ lemma bcntMono: forall(bs []*OperandBundle, a int, b int, 0 <= a && a <= b ==> 0 <= bcnt(bs, a) && bcnt(bs, a) <= bcnt(bs, b), pattern(bcnt(bs, a), bcnt(bs, b))) by induction on b
+//@ lemma bcntStep: forall(bs []*OperandBundle, a int, b int, 0 <= a && a < b ==> bcnt(bs, a) + ite(len(bs[a].Inputs) >= 0, len(bs[a].Inputs), 0) <= bcnt(bs, b), pattern(bcnt(bs, a), bcnt(bs, b))) by induction on b
 //@ func (*InstExtractValue).Operands
 //@   props C15 C14
 //@   requires inst != nil
@@ -1840,21 +1856,27 @@ package ir
 //@   assigns nothing
 //@   ensures len(result) == 1 && (result[0] == addr(inst.X))
 //@ func (*InstCall).Operands
-//@ # operand-bundle inputs follow the listed prefix; their positions are covered by the bounded stand-in only
+//@ # operand-bundle inputs follow the listed prefix, bundle by bundle (bcnt: number of inputs of the earlier bundles)
 //@   props C15 C14
 //@   requires inst != nil
 //@   requires forall(j, 0, len(inst.OperandBundles), inst.OperandBundles[j] != nil)
 //@   assigns nothing
-//@   ensures len(result) >= 1 + len(inst.Args) && result[0] == addr(inst.Callee) && forall(k, 1, 1 + len(inst.Args), result[k] == addr(inst.Args[k - (1)]))
+//@   ensures len(result) == 1 + len(inst.Args) + bcnt(inst.OperandBundles, len(inst.OperandBundles)) && result[0] == addr(inst.Callee) && forall(k, 1, 1 + len(inst.Args), result[k] == addr(inst.Args[k - (1)]))
+//@   ensures forall(j int, k int, 0 <= j && j < len(inst.OperandBundles) && 1 + len(inst.Args) + bcnt(inst.OperandBundles, j) <= k && k < 1 + len(inst.Args) + bcnt(inst.OperandBundles, j) + len(inst.OperandBundles[j].Inputs) ==> result[k] == addr(inst.OperandBundles[j].Inputs[k - (1 + len(inst.Args) + bcnt(inst.OperandBundles, j))]), pattern(result[k], bcnt(inst.OperandBundles, j)))
 //@   loop 0: invariant 0 <= range_i && range_i <= len(inst.Args) && len(ops) == 1 + range_i
 //@   loop 0: invariant ops[0] == addr(inst.Callee)
 //@   loop 0: invariant forall(k, 1, 1 + range_i, ops[k] == addr(inst.Args[k - (1)]))
-//@   loop 1: invariant 0 <= range_i && len(ops) >= 1 + len(inst.Args)
+//@   loop 1: invariant 0 <= range_i && range_i <= len(inst.OperandBundles) && len(ops) == 1 + len(inst.Args) + bcnt(inst.OperandBundles, range_i)
 //@   loop 1: invariant forall(j, 0, len(inst.OperandBundles), inst.OperandBundles[j] != nil)
 //@   loop 1: invariant ops[0] == addr(inst.Callee)
 //@   loop 1: invariant forall(k, 1, 1 + len(inst.Args), ops[k] == addr(inst.Args[k - (1)]))
-//@   loop 2: invariant 0 <= range_i && len(ops) >= entry(len(ops))
-//@   loop 2: invariant forall(k, 0, entry(len(ops)), ops[k] == entry(ops[k]))
+//@   loop 1: invariant forall(j int, k int, 0 <= j && j < range_i && 1 + len(inst.Args) + bcnt(inst.OperandBundles, j) <= k && k < 1 + len(inst.Args) + bcnt(inst.OperandBundles, j) + len(inst.OperandBundles[j].Inputs) ==> ops[k] == addr(inst.OperandBundles[j].Inputs[k - (1 + len(inst.Args) + bcnt(inst.OperandBundles, j))]), pattern(ops[k], bcnt(inst.OperandBundles, j)))
+//@   loop 2: invariant 0 <= range_at1 && range_at1 < len(inst.OperandBundles) && operandBundle == inst.OperandBundles[range_at1] && 0 <= range_i && range_i <= len(operandBundle.Inputs) && len(ops) == 1 + len(inst.Args) + bcnt(inst.OperandBundles, range_at1) + range_i
+//@   loop 2: invariant forall(j, 0, len(inst.OperandBundles), inst.OperandBundles[j] != nil)
+//@   loop 2: invariant ops[0] == addr(inst.Callee)
+//@   loop 2: invariant forall(k, 1, 1 + len(inst.Args), ops[k] == addr(inst.Args[k - (1)]))
+//@   loop 2: invariant forall(j int, k int, 0 <= j && j < range_at1 && 1 + len(inst.Args) + bcnt(inst.OperandBundles, j) <= k && k < 1 + len(inst.Args) + bcnt(inst.OperandBundles, j) + len(inst.OperandBundles[j].Inputs) ==> ops[k] == addr(inst.OperandBundles[j].Inputs[k - (1 + len(inst.Args) + bcnt(inst.OperandBundles, j))]), pattern(ops[k], bcnt(inst.OperandBundles, j)))
+//@   loop 2: invariant forall(k, 1 + len(inst.Args) + bcnt(inst.OperandBundles, range_at1), 1 + len(inst.Args) + bcnt(inst.OperandBundles, range_at1) + range_i, ops[k] == addr(inst.OperandBundles[range_at1].Inputs[k - (1 + len(inst.Args) + bcnt(inst.OperandBundles, range_at1))]))
 //@ func (*InstVAArg).Operands
 //@   props C15 C14
 //@   requires inst != nil
@@ -1939,30 +1961,39 @@ package ir
 //@   loop 0: invariant ops[0] == addr(term.Addr)
 //@   loop 0: invariant forall(k, 1, 1 + range_i, ops[k] == addr(term.ValidTargets[k - (1)]))
 //@ func (*TermInvoke).Operands
-//@ # operand-bundle inputs follow the listed prefix; their positions are covered by the bounded stand-in only
+//@ # operand-bundle inputs follow the listed prefix, bundle by bundle (bcnt: number of inputs of the earlier bundles)
 //@   props C15 C14
 //@   requires term != nil
 //@   requires forall(j, 0, len(term.OperandBundles), term.OperandBundles[j] != nil)
 //@   assigns nothing
-//@   ensures len(result) >= 1 + len(term.Args) + 1 + 1 && result[0] == addr(term.Invokee) && forall(k, 1, 1 + len(term.Args), result[k] == addr(term.Args[k - (1)])) && result[1 + len(term.Args)] == addr(term.NormalRetTarget) && result[1 + len(term.Args) + 1] == addr(term.ExceptionRetTarget)
+//@   ensures len(result) == 1 + len(term.Args) + 1 + 1 + bcnt(term.OperandBundles, len(term.OperandBundles)) && result[0] == addr(term.Invokee) && forall(k, 1, 1 + len(term.Args), result[k] == addr(term.Args[k - (1)])) && result[1 + len(term.Args)] == addr(term.NormalRetTarget) && result[1 + len(term.Args) + 1] == addr(term.ExceptionRetTarget)
+//@   ensures forall(j int, k int, 0 <= j && j < len(term.OperandBundles) && 1 + len(term.Args) + 1 + 1 + bcnt(term.OperandBundles, j) <= k && k < 1 + len(term.Args) + 1 + 1 + bcnt(term.OperandBundles, j) + len(term.OperandBundles[j].Inputs) ==> result[k] == addr(term.OperandBundles[j].Inputs[k - (1 + len(term.Args) + 1 + 1 + bcnt(term.OperandBundles, j))]), pattern(result[k], bcnt(term.OperandBundles, j)))
 //@   loop 0: invariant 0 <= range_i && range_i <= len(term.Args) && len(ops) == 1 + range_i
 //@   loop 0: invariant ops[0] == addr(term.Invokee)
 //@   loop 0: invariant forall(k, 1, 1 + range_i, ops[k] == addr(term.Args[k - (1)]))
-//@   loop 1: invariant 0 <= range_i && len(ops) >= 1 + len(term.Args) + 1 + 1
+//@   loop 1: invariant 0 <= range_i && range_i <= len(term.OperandBundles) && len(ops) == 1 + len(term.Args) + 1 + 1 + bcnt(term.OperandBundles, range_i)
 //@   loop 1: invariant forall(j, 0, len(term.OperandBundles), term.OperandBundles[j] != nil)
 //@   loop 1: invariant ops[0] == addr(term.Invokee)
 //@   loop 1: invariant forall(k, 1, 1 + len(term.Args), ops[k] == addr(term.Args[k - (1)]))
 //@   loop 1: invariant ops[1 + len(term.Args)] == addr(term.NormalRetTarget)
 //@   loop 1: invariant ops[1 + len(term.Args) + 1] == addr(term.ExceptionRetTarget)
-//@   loop 2: invariant 0 <= range_i && len(ops) >= entry(len(ops))
-//@   loop 2: invariant forall(k, 0, entry(len(ops)), ops[k] == entry(ops[k]))
+//@   loop 1: invariant forall(j int, k int, 0 <= j && j < range_i && 1 + len(term.Args) + 1 + 1 + bcnt(term.OperandBundles, j) <= k && k < 1 + len(term.Args) + 1 + 1 + bcnt(term.OperandBundles, j) + len(term.OperandBundles[j].Inputs) ==> ops[k] == addr(term.OperandBundles[j].Inputs[k - (1 + len(term.Args) + 1 + 1 + bcnt(term.OperandBundles, j))]), pattern(ops[k], bcnt(term.OperandBundles, j)))
+//@   loop 2: invariant 0 <= range_at1 && range_at1 < len(term.OperandBundles) && operandBundle == term.OperandBundles[range_at1] && 0 <= range_i && range_i <= len(operandBundle.Inputs) && len(ops) == 1 + len(term.Args) + 1 + 1 + bcnt(term.OperandBundles, range_at1) + range_i
+//@   loop 2: invariant forall(j, 0, len(term.OperandBundles), term.OperandBundles[j] != nil)
+//@   loop 2: invariant ops[0] == addr(term.Invokee)
+//@   loop 2: invariant forall(k, 1, 1 + len(term.Args), ops[k] == addr(term.Args[k - (1)]))
+//@   loop 2: invariant ops[1 + len(term.Args)] == addr(term.NormalRetTarget)
+//@   loop 2: invariant ops[1 + len(term.Args) + 1] == addr(term.ExceptionRetTarget)
+//@   loop 2: invariant forall(j int, k int, 0 <= j && j < range_at1 && 1 + len(term.Args) + 1 + 1 + bcnt(term.OperandBundles, j) <= k && k < 1 + len(term.Args) + 1 + 1 + bcnt(term.OperandBundles, j) + len(term.OperandBundles[j].Inputs) ==> ops[k] == addr(term.OperandBundles[j].Inputs[k - (1 + len(term.Args) + 1 + 1 + bcnt(term.OperandBundles, j))]), pattern(ops[k], bcnt(term.OperandBundles, j)))
+//@   loop 2: invariant forall(k, 1 + len(term.Args) + 1 + 1 + bcnt(term.OperandBundles, range_at1), 1 + len(term.Args) + 1 + 1 + bcnt(term.OperandBundles, range_at1) + range_i, ops[k] == addr(term.OperandBundles[range_at1].Inputs[k - (1 + len(term.Args) + 1 + 1 + bcnt(term.OperandBundles, range_at1))]))
 //@ func (*TermCallBr).Operands
-//@ # operand-bundle inputs follow the listed prefix; their positions are covered by the bounded stand-in only
+//@ # operand-bundle inputs follow the listed prefix, bundle by bundle (bcnt: number of inputs of the earlier bundles)
 //@   props C15 C14
 //@   requires term != nil
 //@   requires forall(j, 0, len(term.OperandBundles), term.OperandBundles[j] != nil)
 //@   assigns nothing
-//@   ensures len(result) >= 1 + len(term.Args) + 1 + len(term.OtherRetTargets) && result[0] == addr(term.Callee) && forall(k, 1, 1 + len(term.Args), result[k] == addr(term.Args[k - (1)])) && result[1 + len(term.Args)] == addr(term.NormalRetTarget) && forall(k, 1 + len(term.Args) + 1, 1 + len(term.Args) + 1 + len(term.OtherRetTargets), result[k] == addr(term.OtherRetTargets[k - (1 + len(term.Args) + 1)]))
+//@   ensures len(result) == 1 + len(term.Args) + 1 + len(term.OtherRetTargets) + bcnt(term.OperandBundles, len(term.OperandBundles)) && result[0] == addr(term.Callee) && forall(k, 1, 1 + len(term.Args), result[k] == addr(term.Args[k - (1)])) && result[1 + len(term.Args)] == addr(term.NormalRetTarget) && forall(k, 1 + len(term.Args) + 1, 1 + len(term.Args) + 1 + len(term.OtherRetTargets), result[k] == addr(term.OtherRetTargets[k - (1 + len(term.Args) + 1)]))
+//@   ensures forall(j int, k int, 0 <= j && j < len(term.OperandBundles) && 1 + len(term.Args) + 1 + len(term.OtherRetTargets) + bcnt(term.OperandBundles, j) <= k && k < 1 + len(term.Args) + 1 + len(term.OtherRetTargets) + bcnt(term.OperandBundles, j) + len(term.OperandBundles[j].Inputs) ==> result[k] == addr(term.OperandBundles[j].Inputs[k - (1 + len(term.Args) + 1 + len(term.OtherRetTargets) + bcnt(term.OperandBundles, j))]), pattern(result[k], bcnt(term.OperandBundles, j)))
 //@   loop 0: invariant 0 <= range_i && range_i <= len(term.Args) && len(ops) == 1 + range_i
 //@   loop 0: invariant ops[0] == addr(term.Callee)
 //@   loop 0: invariant forall(k, 1, 1 + range_i, ops[k] == addr(term.Args[k - (1)]))
@@ -1971,14 +2002,21 @@ package ir
 //@   loop 1: invariant forall(k, 1, 1 + len(term.Args), ops[k] == addr(term.Args[k - (1)]))
 //@   loop 1: invariant ops[1 + len(term.Args)] == addr(term.NormalRetTarget)
 //@   loop 1: invariant forall(k, 1 + len(term.Args) + 1, 1 + len(term.Args) + 1 + range_i, ops[k] == addr(term.OtherRetTargets[k - (1 + len(term.Args) + 1)]))
-//@   loop 2: invariant 0 <= range_i && len(ops) >= 1 + len(term.Args) + 1 + len(term.OtherRetTargets)
+//@   loop 2: invariant 0 <= range_i && range_i <= len(term.OperandBundles) && len(ops) == 1 + len(term.Args) + 1 + len(term.OtherRetTargets) + bcnt(term.OperandBundles, range_i)
 //@   loop 2: invariant forall(j, 0, len(term.OperandBundles), term.OperandBundles[j] != nil)
 //@   loop 2: invariant ops[0] == addr(term.Callee)
 //@   loop 2: invariant forall(k, 1, 1 + len(term.Args), ops[k] == addr(term.Args[k - (1)]))
 //@   loop 2: invariant ops[1 + len(term.Args)] == addr(term.NormalRetTarget)
 //@   loop 2: invariant forall(k, 1 + len(term.Args) + 1, 1 + len(term.Args) + 1 + len(term.OtherRetTargets), ops[k] == addr(term.OtherRetTargets[k - (1 + len(term.Args) + 1)]))
-//@   loop 3: invariant 0 <= range_i && len(ops) >= entry(len(ops))
-//@   loop 3: invariant forall(k, 0, entry(len(ops)), ops[k] == entry(ops[k]))
+//@   loop 2: invariant forall(j int, k int, 0 <= j && j < range_i && 1 + len(term.Args) + 1 + len(term.OtherRetTargets) + bcnt(term.OperandBundles, j) <= k && k < 1 + len(term.Args) + 1 + len(term.OtherRetTargets) + bcnt(term.OperandBundles, j) + len(term.OperandBundles[j].Inputs) ==> ops[k] == addr(term.OperandBundles[j].Inputs[k - (1 + len(term.Args) + 1 + len(term.OtherRetTargets) + bcnt(term.OperandBundles, j))]), pattern(ops[k], bcnt(term.OperandBundles, j)))
+//@   loop 3: invariant 0 <= range_at2 && range_at2 < len(term.OperandBundles) && operandBundle == term.OperandBundles[range_at2] && 0 <= range_i && range_i <= len(operandBundle.Inputs) && len(ops) == 1 + len(term.Args) + 1 + len(term.OtherRetTargets) + bcnt(term.OperandBundles, range_at2) + range_i
+//@   loop 3: invariant forall(j, 0, len(term.OperandBundles), term.OperandBundles[j] != nil)
+//@   loop 3: invariant ops[0] == addr(term.Callee)
+//@   loop 3: invariant forall(k, 1, 1 + len(term.Args), ops[k] == addr(term.Args[k - (1)]))
+//@   loop 3: invariant ops[1 + len(term.Args)] == addr(term.NormalRetTarget)
+//@   loop 3: invariant forall(k, 1 + len(term.Args) + 1, 1 + len(term.Args) + 1 + len(term.OtherRetTargets), ops[k] == addr(term.OtherRetTargets[k - (1 + len(term.Args) + 1)]))
+//@   loop 3: invariant forall(j int, k int, 0 <= j && j < range_at2 && 1 + len(term.Args) + 1 + len(term.OtherRetTargets) + bcnt(term.OperandBundles, j) <= k && k < 1 + len(term.Args) + 1 + len(term.OtherRetTargets) + bcnt(term.OperandBundles, j) + len(term.OperandBundles[j].Inputs) ==> ops[k] == addr(term.OperandBundles[j].Inputs[k - (1 + len(term.Args) + 1 + len(term.OtherRetTargets) + bcnt(term.OperandBundles, j))]), pattern(ops[k], bcnt(term.OperandBundles, j)))
+//@   loop 3: invariant forall(k, 1 + len(term.Args) + 1 + len(term.OtherRetTargets) + bcnt(term.OperandBundles, range_at2), 1 + len(term.Args) + 1 + len(term.OtherRetTargets) + bcnt(term.OperandBundles, range_at2) + range_i, ops[k] == addr(term.OperandBundles[range_at2].Inputs[k - (1 + len(term.Args) + 1 + len(term.OtherRetTargets) + bcnt(term.OperandBundles, range_at2))]))
 //@ func (*TermResume).Operands
 //@   props C15 C14
 //@   requires term != nil
